@@ -64,6 +64,31 @@ def build_lab():
     return out, time.time() - t0
 
 
+def build_lab_race():
+    """the same lab with Go's race detector compiled in (needs cgo and the race runtime of the installed toolchain);
+    -> path or None when the toolchain cannot build it"""
+    out = os.path.join(scratch(), "lab-race")
+    p = subprocess.run(["go", "build", "-race", "-tags", "verif", "-o", out, "./cmd/lab"], cwd=HARNESS,
+                       env=GOENV, stdout=subprocess.PIPE, stderr=subprocess.STDOUT, text=True)
+    return out if p.returncode == 0 else None
+
+
+def race_reports(prefix):
+    """the reports the race detector wrote (GORACE log_path=prefix): -> list of (is_map_race, first honeytrap frames, text)"""
+    out = []
+    d, base = os.path.split(prefix)
+    for f in sorted(os.listdir(d)):
+        if not f.startswith(base):
+            continue
+        for b in open(os.path.join(d, f), errors="replace").read().split("=================="):
+            if "DATA RACE" not in b:
+                continue
+            frames = [ln.strip()[:-2].replace("github.com/honeytrap/honeytrap/", "") for ln in b.splitlines()
+                      if "github.com/honeytrap/honeytrap" in ln and "()" in ln]
+            out.append(("runtime.map" in b, frames[:3], b))
+    return out
+
+
 def run_lab(lab, args, timeout=600, env=None, stdin=None):
     e = dict(os.environ)
     e["VERIF_SCRATCH"] = scratch()
